@@ -95,7 +95,7 @@ pub fn mismatch_inner(pat: Pat, psk_mask: u16, item: Item, k: usize, two_real: b
         let mut w = snow_from_rm_b::<8, 4, 4>(&rmw, wname, false);
         set_rng_slot(0, &e);
         let n = w.write_message(&payload, &mut msg);
-        assert!(n.is_ok(), "C08 harness: real writer");
+        assert!(n.is_ok(), "C02: an honest handshake write failed");
         let res = hs.read_message(&msg[..n.unwrap_or(0)], &mut out);
         assert!(res.is_err(), "C08: a handshake message between two real endpoints was accepted although they disagree on a context item");
         return;
@@ -168,7 +168,7 @@ pub fn c08_q_builder_long_prologue_mismatch() {
     let a = snow::Builder::with_resolver(mk_params(NAME, Pat::NN, 0), Box::new(ToyResolver)).prologue(&pa).unwrap().build_initiator();
     let b = snow::Builder::with_resolver(mk_params(NAME, Pat::NN, 0), Box::new(ToyResolverB)).prologue(pb_used).unwrap().build_responder();
     kani::cover!(a.is_ok() && b.is_ok(), "C08 builder mismatch harness reached");
-    assert!(a.is_ok() && b.is_ok(), "C08 harness: builders");
+    assert!(a.is_ok() && b.is_ok(), "C12: Builder refused a complete configuration");
     if let (Ok(a), Ok(b)) = (a, b) {
         let (ha, hb) = (a.get_handshake_hash(), b.get_handshake_hash());
         let mut same = true;
